@@ -797,7 +797,9 @@ def hyper_cases(draw):
                 thickness=draw(st.sampled_from([1.0, 0.5, 2.0])) if dim == 2 else 1.0,
                 dirichlet=draw(bc_sets(dim, nmax=1, kinds=("zero", "const"), nmin=0)), loads=draw(load_sets(dim, nmax=1)),
                 seed=draw(st.integers(0, 999)), amp=draw(st.integers(1, 6)) / 40.0,
-                sv=draw(st.sampled_from([0.0, 0.1, 0.5])), sa=draw(st.sampled_from([0.0, 0.5, 2.0])))
+                sv=draw(st.sampled_from([0.0, 0.1, 0.5])), sa=draw(st.sampled_from([0.0, 0.5, 2.0])),
+                # stress of the internal force: the pointwise one, or the strain-path quadrature (documented for every dynamic scheme)
+                stress=draw(st.sampled_from(["pointwise", "pointwise", "quadrature"])), nPoints=draw(st.integers(1, 4)))
 
 
 def check_hyper(case, rec):
@@ -818,7 +820,10 @@ def check_hyper(case, rec):
     loads = [dict(ld, amp=ld["amp"] * 0.02 * hx.moduli(case["law"])) for ld in case["loads"]]
     apply_bcs(simu, p, dirs, loads)
     prm = set_scheme(simu, sch)
-    sig = dict(algo=algo, kind="hyperelastic", law=case["law"]["name"])
+    quad = case.get("stress") == "quadrature" and algo != "elliptic"
+    if quad:
+        simu.Solver_Set_Stress(simu.StressType.quadrature, nPoints=int(case["nPoints"]))
+    sig = dict(algo=algo, kind="hyperelastic", law=case["law"]["name"], stress="quadrature" if quad else "pointwise")
     N = mesh.Nn * dim
     u_n = hx.smooth_u(mesh, dim, case["seed"], case["amp"])
     v_n = case["sv"] * hx.smooth_u(mesh, dim, case["seed"] + 1, 1.0, noise=0.05)
@@ -843,7 +848,13 @@ def check_hyper(case, rec):
         state = HyperElasticState(gg, u_t, MatrixType.rigi)
         if float(np.asarray(state.Compute_J()).min()) <= 0:
             raise Inconclusive("inverted element at the evaluation point")
-        _, R_e = Operators.NonLinear.SecondPiolaKirchhoffStressTensor(mat, state)
+        if quad:
+            # the internal force of the option is the operator's own (its consistency with the stored energy is C18's business)
+            st_n, st_1 = HyperElasticState(gg, u_n, MatrixType.rigi), HyperElasticState(gg, u1, MatrixType.rigi)
+            coefK = float(simu._Solver_Get_K_C_M_coefs_for_time_scheme()[0])
+            R_e = Operators.NonLinear.TimeQuadratureStressTensor(mat, st_n, state, st_1, coefK, int(case["nPoints"]), None)[1]
+        else:
+            _, R_e = Operators.NonLinear.SecondPiolaKirchhoffStressTensor(mat, state)
         M_e = th * np.asarray(Operators.Bilinear.UV(gg, case["rho"], dof_n=dim))
         asm = gg.Get_assembly_e(dim)
         Ma_e = np.einsum("eij,ej->ei", M_e, a_t[asm])
@@ -858,6 +869,7 @@ def check_hyper(case, rec):
     scale = float((sc + np.abs(Fext)).max())
     rec.close(r, scale if scale > 0 else 1.0, TOL_HYPER, "hyper_equation_of_motion",
               f"{algo} {case['law']['name']} {mr['elemType']}: F_int(u_t) + M a_t - F_ext != 0 on free dofs after a converged step", **sig)
+    rec.label("stress:" + sig["stress"])
     rec.label("algo:" + algo, "problem:hyperelastic", "law:" + case["law"]["name"], f"hyper_newton_iterations:{min(int(simu._Simu__newtonIter), 8)}")
     rec.nontrivial(_mx(u1 - u_n) > 0 and _mx(a_t) > 0)
 
